@@ -91,6 +91,21 @@ def run(ctx, ck) -> None:
     ck.expect('A1', ok, fn or ravel.node, 'axes first..last (negative ones normalised with the rank of the leaf) are merged: shape[:first] + (-1,) + shape[last+1:]',
               f'RavelOperator.mv does not merge exactly the axes first..last of each leaf: {why}', instance='ravel merged axes')
 
+    # ------------------------------------------------------------------ A5 the axes are stored as given
+    from ..paramflow import integrity
+
+    minit = move.own.get('__init__')
+    if isinstance(minit, ast.FunctionDef):
+        for fld in ('source', 'destination'):
+            kind, ex = integrity(minit, fld, fld)
+            if kind == 'identity':
+                ck.ok('A5', minit, f'{fld} is stored as given (only normalised to a tuple)', instance=f'moveaxis {fld}')
+            elif kind == 'filtered':
+                ck.bad('A5', minit, f'MoveAxisOperator stores a filtered / re-paired version of `{fld}` ({show(ex)[:80]}): dropping or re-pairing (source, destination) pairs changes where numpy.moveaxis puts the '
+                       'remaining axes, so the operator no longer acts as moveaxis(x, source, destination)', instance=f'moveaxis {fld}')
+            else:
+                ck.incomplete('A5', minit, f'{fld} is stored as {show(ex)[:80]}', instance=f'moveaxis {fld}')
+
     # ------------------------------------------------------------------ A2 validation
     init = ravel.own.get('__init__')
     if not isinstance(init, ast.FunctionDef):
